@@ -79,3 +79,30 @@ def busy_case(rng, steps, growing=False, p_suspend=0.15):
             "driver": {"steps": steps, "p_assign": 1.0, "p_suspend": p_suspend, "p_bad": 0.0, "integer_sizes": True, "p_unready": 0.0,
                        "fixed_size": [1, 3.3], "per_pool": 3},     # 3.3 GB: write-out 16.5 ticks (no float-boundary decision), CPU-bound pool
             "drain": 400, "_adaptive_pending": True, "steps": None, "_busy": True}
+
+
+def mass_start_case(rng, n=None):
+    """Many containers start in one tick in one overcommitted pool and together demand a multiple of its RAM:
+    the pool-level killer has to take many victims (9 .. n) in a single tick, with mixed allocations (scores) and
+    ties.  A second wave follows while the survivors still run."""
+    tps = rng.choice([1, 10, 100])
+    n = n or rng.choice([12, 24, 40, 60])
+    ram = rng.choice([64, 64, 128, 16])
+    w = {"pools": 1, "cpus": 128, "ram": ram, "tps": tps, "multi": True, "overcommit": True}
+    pipes, asg0, asg1 = [], [], []
+    share = ram * rng.choice([2.0, 3.0, 6.0]) / n           # together 2x .. 6x the pool
+    for i in range(2 * n):
+        growing = rng.random() < 0.3
+        m = share * rng.choice([0.5, 1.0, 1.0, 1.5])
+        ticks = rng.choice([2, 3, 5])
+        if growing:
+            seg = {"cpu": (ticks + 0.5) / tps, "law": "const", "mem": None, "read": m}
+        else:
+            seg = {"cpu": (ticks + 0.5) / tps, "law": "const", "mem": m, "read": 0.0}
+        pipes.append({"pid": f"m{i}", "prio": rng.choice(["BATCH_PIPELINE", "INTERACTIVE", "QUERY"]),
+                      "ops": [{"parents": [], "segs": [seg]}]})
+        alloc = rng.choice([ram, ram, 2 * m, 4 * m, m * 1.0000001 + 0.001, ram * 4])
+        (asg0 if i < n else asg1).append({"pool": 0, "cpu": 1, "ram": alloc, "ops": [[i, 0]]})
+    steps = [{"sus": [], "asg": asg0}, {"sus": [], "asg": []}, {"sus": [], "asg": asg1}] + [{"sus": [], "asg": []} for _ in range(12)]
+    return {"kind": "mix", "world": w, "pipelines": pipes, "steps": steps, "drain": 60, "_mass_start": n,
+            "driver_seed": 0, "driver": {"steps": len(steps)}}
